@@ -205,6 +205,12 @@ func (e *Eng) AppendParts(v ssa.Value) (bases []ssa.Value, parts []AppendPart) {
 		}
 		seen[v] = true
 		switch x := v.(type) {
+		case *ssa.MakeInterface:
+			rec(x.X)
+			return
+		case *ssa.ChangeType:
+			rec(x.X)
+			return
 		case *ssa.Phi:
 			for _, ed := range x.Edges {
 				rec(ed)
